@@ -133,6 +133,17 @@ pub fn errors_after_death(v: &View, vd: &mut Verdict, prop: &str) {
             }
         }
     }
+    // a ping submitted after an accepted stop request had returned is queued behind the stop: it is
+    // never answered, so it must fail once the actor is gone
+    for a in 0..v.actors.len() {
+        let accepted = v.actors[a].stop_reqs.iter().filter(|i| v.ops[**i].ok()).filter_map(|i| v.ops[*i].end).min();
+        let Some(acc) = accepted else { continue };
+        for o in v.client_ops().filter(|o| o.actor == Some(a) && o.what == OpWhat::Ping && o.begin > acc && o.begin < v.phase(Phase::Teardown)) {
+            if o.ok() {
+                vd.fail(format!("{prop}/ping_ok_behind_stop"), format!("actor {a}: ping at {} (after a stop accepted at {acc}) returned Ok although it could never be processed", o.begin));
+            }
+        }
+    }
     // a call that returned Err must not have a completed handler whose reply was lost?  No: the
     // statement does not promise that (timeouts abandon handlers).  A call that returned Ok for a
     // message without completed invocation is covered by own_reply.
